@@ -131,6 +131,9 @@ func genMsgNonce(r *rand.Rand, n int) []string {
 		out = append(out, fmt.Sprintf("msg.noncehistory %d %d", alg, hist))
 	}
 	for i := 0; i < n; i++ {
+		if i%6 == 0 { // a caller's IV / kid / alg under another Go integer kind than the library's own label
+			out = append(out, genMsgDup(r))
+		}
 		kind := kindsAll[4+r.Intn(2)]
 		alg := aeadAlgs[r.Intn(len(aeadAlgs))]
 		ns := nonceSizeOf(alg)
@@ -268,6 +271,7 @@ func genMsgForeign(r *rand.Rand, n int) []string {
 			unprotKids = append(unprotKids, &cnode{mt: 0, n: 4}, &cnode{mt: 2, b: k.kid})
 		}
 		var members []*cnode
+		foreignKeys := []msgKey{k}
 		o := &emitOpts{nonShortest: 0.3}
 		switch kind {
 		case "sign1", "mac0", "mac":
@@ -292,19 +296,51 @@ func genMsgForeign(r *rand.Rand, n int) []string {
 				members = append(members, &cnode{mt: 4, kids: []*cnode{{mt: 4, kids: []*cnode{{mt: 2, b: foreignBucket(r, -6, true)}, {mt: 5}, {mt: 2, b: []byte{}}}}}})
 			}
 		case "sign":
-			signProt := foreignBucket(r, alg, r.Intn(4) != 0) // a quarter without alg: h'a0' or h''
-			tobe := encStructure("Signature", bodyProt, signProt, extOrEmpty, payload)
-			s, err := kk.Signer()
-			if err != nil {
+			// 1..3 signatures, all of one algorithm, each over its own (differently encoded / differently filled) protected
+			// bucket; further signatures come from the same key or from another key of that algorithm
+			var sigs []*cnode
+			nSig := 1
+			if r.Intn(3) == 0 {
+				nSig = 2 + r.Intn(2)
+			}
+			skeys := []msgKey{k}
+			bad := false
+			for j := 0; j < nSig; j++ {
+				sk := k
+				if j > 0 && r.Intn(2) == 0 && len(k.kid) > 0 {
+					for {
+						sk = genMsgKey(r, alg, false)
+						fresh := len(sk.kid) > 0
+						for _, o := range skeys {
+							if string(o.kid) == string(sk.kid) {
+								fresh = false
+							}
+						}
+						if fresh {
+							break
+						}
+					}
+					skeys = append(skeys, sk)
+				}
+				signProt := foreignBucket(r, alg, r.Intn(4) != 0) // a quarter without alg: h'a0' or h''
+				tobe := encStructure("Signature", bodyProt, signProt, extOrEmpty, payload)
+				s, err := keyFromToks(strings.Fields(sk.priv)).Signer()
+				if err != nil {
+					bad = true
+					break
+				}
+				sig, _ := s.Sign(tobe)
+				su := []*cnode{}
+				if len(sk.kid) > 0 {
+					su = append(su, &cnode{mt: 0, n: 4}, &cnode{mt: 2, b: sk.kid})
+				}
+				sigs = append(sigs, &cnode{mt: 4, kids: []*cnode{{mt: 2, b: signProt}, {mt: 5, kids: su}, {mt: 2, b: sig}}})
+			}
+			if bad {
 				continue
 			}
-			sig, _ := s.Sign(tobe)
-			su := []*cnode{}
-			if len(k.kid) > 0 {
-				su = append(su, &cnode{mt: 0, n: 4}, &cnode{mt: 2, b: k.kid})
-			}
-			members = []*cnode{{mt: 2, b: bodyProt}, {mt: 5, kids: unprotKids}, {mt: 2, b: payload},
-				{mt: 4, kids: []*cnode{{mt: 4, kids: []*cnode{{mt: 2, b: signProt}, {mt: 5, kids: su}, {mt: 2, b: sig}}}}}}
+			foreignKeys = skeys
+			members = []*cnode{{mt: 2, b: bodyProt}, {mt: 5, kids: unprotKids}, {mt: 2, b: payload}, {mt: 4, kids: sigs}}
 		default:
 			ctx := map[string]string{"encrypt0": "Encrypt0", "encrypt": "Encrypt"}[kind]
 			aad := encStructure(ctx, bodyProt, extOrEmpty)
@@ -330,7 +366,7 @@ func genMsgForeign(r *rand.Rand, n int) []string {
 		case 1:
 			msg = append([]byte{0xd8, 0x3d}, append(append([]byte{}, kindPrefix[kind]...), msg...)...)
 		}
-		p := &producedMsg{kind: kind, mode: "raw", ext: hxOpt(ext), keys: []msgKey{k}, data: msg, ok: true}
+		p := &producedMsg{kind: kind, mode: "raw", ext: hxOpt(ext), keys: foreignKeys, data: msg, ok: true}
 		out = append(out, p.consumeLine(msg, p.ext, p.pubKeys()), "msg.reencode "+kind+" "+hx(msg))
 		if i%3 == 0 { // the same message object and verifier over two foreign messages / two external data
 			out = append(out, history(r, p)[:3]...)
